@@ -516,9 +516,9 @@ def run(ctx):
     contents = ["A", "B", "P", "M", "K", "L"] if quick else ["A", "B", "C", "P", "M", "K", "L", "Q"]
     pathids = ["nested", "existing", "bare"]
     depth_mc = 4 if quick else 6
-    nsim, dsim = (400, 9) if quick else (20000, 14)
+    nsim, dsim = (400, 9) if quick else (10000, 14)
     ctx.bounds = {"contents": contents, "paths": pathids, "exhaustive_depth": depth_mc - 1, "simulated_behaviours": nsim,
-                  "simulation_depth": dsim - 1, "random_histories": 60 if quick else 3000, "random_history_length": 40}
+                  "simulation_depth": dsim - 1, "random_histories": 60 if quick else 2000, "random_history_length": 40}
     # 1. exhaustive model checking of the bounded machine
     res = ctx.tlc("Fits", CFG_MC, defs=_defs(contents, pathids, 2, depth_mc), tag="MC_Fits", timeout=1500, coverage=True)
     # second exhaustive configuration: imaging datasets (three files per call, partial failure) and multi-extension files
